@@ -535,8 +535,108 @@ fn stalled_case(kind: u8, queued_kb: usize, res: &mut CaseResult) {
     }
 }
 
+/// The peer goes silent (no EOF, no reset) while a close handshake is under way, with
+/// heartbeats negotiated: only the missed-heartbeat timer can end this.
+///   kind 0: client close, the server never answers
+///   kind 1: server close while our CloseOk cannot be written, then silence
+///   kind 2: client exception (illegal method) while the Close cannot be written, then silence
+fn silent_close_case(kind: u8, res: &mut CaseResult) {
+    let mut reflex = Reflex::default();
+    reflex.tune = (2047, 131072, 1);
+    reflex.ignore_conn_close = true;
+    reflex.hold_channels.insert(2);
+    let (conn, h) = session::open_with(reflex, session::default_opts().heartbeat(1), ConnectionTuning::default(), |_| {});
+    let mut conn = match conn {
+        Ok(c) => c,
+        Err(e) => {
+            res.inconclusive(format!("handshake: {}", ek(&e)));
+            return;
+        }
+    };
+    let (_ch1, ch2) = match (conn.open_channel(Some(1)), conn.open_channel(Some(2))) {
+        (Ok(a), Ok(b)) => (a, b),
+        _ => {
+            res.inconclusive("open_channel failed");
+            return;
+        }
+    };
+    // a call in flight on another thread (its reply is withheld)
+    let tr = run::spawn("rpc", move || ch2.queue_declare("never-answered", QueueDeclareOptions::default()).map(|_| ()).map_err(|e| ek(&e)));
+    h.wait(W, |st| st.reflex.held.iter().any(|x| x.ch == 2));
+    let accept: Vec<&str> = match kind {
+        0 => vec!["MissedServerHeartbeats"],
+        1 => {
+            h.with(|st| st.budget = 0);
+            h.inject(conn_close_frame(320, "bye"));
+            vec!["MissedServerHeartbeats", "ServerClosedConnection(320,\"bye\")"]
+        }
+        _ => {
+            h.with(|st| st.budget = 0);
+            h.inject(wire::enc_method(1, AMQPClass::Basic(B::Publish(basic::Publish { ticket: 0, exchange: "".into(), routing_key: "".into(), mandatory: false, immediate: false }))));
+            vec!["MissedServerHeartbeats", "ClientException"]
+        }
+    };
+    let t0 = Instant::now();
+    let h2 = h.clone();
+    let t = run::spawn("close", move || {
+        let r = conn.close();
+        (r, h2.peek(|st| st.released))
+    });
+    // 2h of silence plus slack; well inside W
+    match t.join(W) {
+        J::Done((r, released)) => {
+            let got = match &r {
+                Ok(()) => "Ok".to_string(),
+                Err(e) => ek(e),
+            };
+            if !accept.contains(&got.as_str()) {
+                res.violate("wrong_root_cause", format!("silent peer during close (kind {}): Connection::close() = {}, want one of {:?}", kind, got, accept));
+            }
+            if !released {
+                res.violate("transport_not_released", "close returned but the transport has not been dropped".to_string());
+            }
+            res.obs("silent_close_ms", t0.elapsed().as_millis() as u64);
+        }
+        _ => {
+            res.violate(
+                "close_hangs",
+                format!("heartbeat 1 s, peer silent during a close handshake (kind {}): Connection::close still blocked after 20 s (missed heartbeats must end the connection after 2 s)", kind),
+            );
+            // dropping the channel would block on the stuck I/O thread as well
+            std::mem::forget(_ch1);
+            return;
+        }
+    }
+    match tr.join(W) {
+        J::Done(r) => {
+            if r.is_ok() {
+                res.violate("call_succeeded_after_death", "call in flight returned Ok".to_string());
+            }
+        }
+        _ => res.violate("caller_not_released", "call in flight on another thread was not released".to_string()),
+    }
+    for p in run::io_panics(&run::take_panics()) {
+        res.violate("io_thread_panic", format!("{} at {}", p.msg, p.loc));
+    }
+}
+
 pub fn run(rc: &mut RunCtx) {
     let seed = rc.seed;
+    // the peer falls silent during a close handshake (heartbeats on)
+    for rep in 0..rc.n(1, 4) {
+        for kind in 0..3u8 {
+            let id = format!("silent-close:kind{}:{}", kind, rep);
+            if !rc.mine(&id) {
+                continue;
+            }
+            rc.begin(&id);
+            let mut res = CaseResult::new(id);
+            silent_close_case(kind, &mut res);
+            let during = ["client close", "server close with blocked writes", "client exception with blocked writes"][kind as usize];
+            res.sample = Some(json!({"heartbeat": 1, "silent_peer_during": during}));
+            rc.end(res);
+        }
+    }
     // fault sequences with data queued behind a stalled transport
     for rep in 0..rc.n(2, 8) {
         for kind in 0..5u8 {
